@@ -736,6 +736,23 @@ class C12(Suite):
         for via, d, m, idx in [("s", 0, 0, CTX_LIMIT - 2), ("p", 1, 0, CTX_LIMIT - 2), ("p", 2, 0, CTX_LIMIT - 1), ("o", 0, 500, CTX_LIMIT - 1),
                                ("p", 1, 100, CTX_LIMIT - 1), ("o", 5, 0, CTX_LIMIT), ("p", 0, 4000, CTX_LIMIT), ("p", 1, 0, 7)]:
             yield {"k": "pipe", "ops": two, "via": via, "depth": d, "multiple": m, "fragment": False, "index": idx}
+        # large replies: a Multiple Service Packet reply of more than 4 KiB, or more than 4 KiB of pipelined replies
+        # waiting when harvesting starts, reaches the client in several recv() pieces (a response frame is then
+        # completed by a later recv); the results must not depend on that either
+        for li in range(1 if quick else 6):
+            n = (14 if quick else 20) if li == 0 else rng.randint(12, 30)
+            specs = [{"t": "Big[0-2]=(DINT)7,8,9", "x": {}}]
+            for j in range(n):
+                a = 0 if li == 0 else rng.choice([0, 0, 50, 100, 199])
+                specs.append({"t": "Big[%d-%d]" % (a, a + (99 if li == 0 else rng.choice([99, 99, 80, 100]))), "x": {}}
+                             if rng.random() < 0.9 or li == 0 else {"t": "A[0-3]", "x": {}})
+            big = [("o", 0, 30000), ("p", 50, 0), ("o", 20, 30000)]
+            if not quick:
+                big += [("p", 5, 4000), ("s", 0, 30000), ("p", 2, 30000), ("o", 50, 500), ("p", 20, 0), ("o", 5, 12000)]
+            for via, d, m in big:
+                yield {"k": "pipe", "ops": specs, "via": via, "depth": d, "multiple": m, "fragment": False, "index": 0}
+            if not quick:
+                yield {"k": "pipe", "ops": specs, "via": "o", "depth": 1, "multiple": 30000, "fragment": True, "index": 0}
         for li in range(nlists):
             n = rng.choice([1, 2, 3, 4, 5, 6, 8, 10, 14]) if not quick else rng.choice([1, 2, 3, 4, 5, 6, 8, 10])
             specs = [gen_opspec(rng) for _ in range(n)]
